@@ -47,9 +47,12 @@ TCrash(ev) ==
   /\ (skip \/ Report({"crash"}))
   /\ skip' = FALSE /\ pc' = "idle" /\ UNCHANGED <<G, out, basis>>
 
+\* the arena could not realise the requested address order: a machinery problem, reported as such by the driver
+TLayoutError(ev) == ev.e = "LayoutError" /\ PrintT(<<"LAYOUTERROR", l>>) /\ UNCHANGED <<cl, skip, pc, G, out, basis>>
+
 TNext == /\ l <= Len(Tr)
          /\ l' = l + 1
-         /\ LET ev == Tr[l] IN TCall(ev) \/ TEmit(ev) \/ TReturn(ev) \/ TCrash(ev)
+         /\ LET ev == Tr[l] IN TCall(ev) \/ TEmit(ev) \/ TReturn(ev) \/ TCrash(ev) \/ TLayoutError(ev)
 TSpec == TInit /\ [][TNext]_tvars
 
 \* every event was consumed (diameter counts the initial state)
